@@ -200,6 +200,9 @@ void cmb_priorityqueue_report_print(struct cmb_priorityqueue *pqp, FILE *fp) {
 
 int64_t cmb_priorityqueue_get(struct cmb_priorityqueue *pqp, void **objectloc)
 {
+    /* Waiting since now, also if it takes several rounds at the guard */
+    const double waiting_since = cmb_time();
+
     cmb_assert_release(pqp != NULL);
     cmb_assert_release(objectloc != NULL);
 
@@ -229,9 +232,10 @@ int64_t cmb_priorityqueue_get(struct cmb_priorityqueue *pqp, void **objectloc)
         /* Wait at the front door until some more becomes available  */
         cmb_assert_debug(pqp->queue.heap_count == 0u);
         cmb_logger_info(stdout, "Waiting for an object");
-        const int64_t sig = cmb_resourceguard_wait(&(pqp->front_guard),
-                                                   has_content,
-                                                   NULL);
+        const int64_t sig = cmi_resourceguard_wait_since(&(pqp->front_guard),
+                                                         has_content,
+                                                         NULL,
+                                                         waiting_since);
         if (sig == CMB_PROCESS_SUCCESS) {
             cmb_logger_info(stdout,"Trying again");
         }
@@ -252,6 +256,9 @@ int64_t cmb_priorityqueue_put(struct cmb_priorityqueue *pqp,
                               const int64_t priority,
                               uint64_t *handleloc)
 {
+    /* Waiting since now, also if it takes several rounds at the guard */
+    const double waiting_since = cmb_time();
+
     cmb_assert_release(pqp != NULL);
 
     const struct cmi_resourcebase *rbp = (struct cmi_resourcebase *)pqp;
@@ -280,9 +287,10 @@ int64_t cmb_priorityqueue_put(struct cmb_priorityqueue *pqp,
         /* Wait at the back door until some more becomes available  */
         cmb_assert_debug(pqp->queue.heap_count == pqp->capacity);
         cmb_logger_info(stdout, "Waiting for space");
-        const int64_t sig = cmb_resourceguard_wait(&(pqp->rear_guard),
-                                                   has_space,
-                                                   NULL);
+        const int64_t sig = cmi_resourceguard_wait_since(&(pqp->rear_guard),
+                                                         has_space,
+                                                         NULL,
+                                                         waiting_since);
         if (sig == CMB_PROCESS_SUCCESS) {
             cmb_logger_info(stdout,"Trying again");
         }
